@@ -26,7 +26,7 @@ def set_tier(tier):
     if tier == 'thorough':
         Budget.z3_ms = int(os.environ.get('PV_Z3_MS', 60000))
         Budget.samples = 400
-        Budget.thr_ms = int(os.environ.get('PV_THR_MS', 10000))     # per solver attempt on a threshold-path tolerance clause
+        Budget.thr_ms = int(os.environ.get('PV_THR_MS', 4000))     # per solver attempt on a threshold-path tolerance clause
         Budget.standin = 40
     else:
         Budget.z3_ms = int(os.environ.get('PV_Z3_MS', 20000))
